@@ -75,6 +75,9 @@ fn main() {
             Ok(Err(e)) => writeln!(out, "ERR {}", e.replace('\n', " ")).unwrap(),
             Err(p) => writeln!(out, "PANIC {}", panic_message(p)).unwrap(),
         }
+        // one answer per line must be on the pipe before the next case starts: when a case aborts the process,
+        // the runner attributes the crash to the first line without an answer
+        out.flush().unwrap();
     }
     out.flush().unwrap();
 }
